@@ -409,3 +409,32 @@ package rockredis
 //@   modifies *
 //@ loop 1
 //@   invariant i == len(v) && 0 <= i && i <= count && 1 <= count && count <= MAX_BATCH_NUM && (1 <= old(count) && old(count) <= MAX_BATCH_NUM ==> count == old(count)) && it != nil && rliOK(it)
+
+//@ property C08 C09
+
+//@ noeffect (github.com/youzan/ZanRedisDB/engine.WriteBatch).Clear (*github.com/youzan/ZanRedisDB/rockredis.RockDB).fixListKey (*github.com/youzan/ZanRedisDB/metric.CollSizeHeap).Update
+
+// write batch: ghost(wbputs, wb) / ghost(wbdels, wb) count buffered puts / deletes
+//@ interface (github.com/youzan/ZanRedisDB/engine.WriteBatch).Put func(wb engine.WriteBatch, key []byte, value []byte)
+//@   ensures ghost(wbputs, wb) == old(ghost(wbputs, wb)) + 1
+//@   modifies ghost(wbputs, wb)
+//@ interface (github.com/youzan/ZanRedisDB/engine.WriteBatch).Delete func(wb engine.WriteBatch, key []byte)
+//@   ensures ghost(wbdels, wb) == old(ghost(wbdels, wb)) + 1
+//@   modifies ghost(wbdels, wb)
+//@ interface (github.com/youzan/ZanRedisDB/engine.WriteBatch).DeleteRange func(wb engine.WriteBatch, start []byte, end []byte)
+//@   modifies ghost(wbdels, wb)
+
+//@ func encodeListMeta(oldh *headerMetaValue, headSeq int64, tailSeq int64, ts int64) []byte
+//@   trusted byte layout of the list meta value
+//@   ensures fresh(result)
+
+// list meta: size = tail - head + 1; the meta key is deleted iff the list becomes empty (collection exists iff it has an element)
+// ghost(lmhead, db) / ghost(lmtail, db): the last (head, tail) written; ghost(lmsets, db): number of meta writes
+//@ func (db *RockDB) lSetMeta(key []byte, oldh *headerMetaValue, headSeq int64, tailSeq int64, ts int64, wb engine.WriteBatch) (int64, error)
+//@   requires db != nil && headSeq > -4611686018427387904 && headSeq < 4611686018427387904 && tailSeq > -4611686018427387904 && tailSeq < 4611686018427387904
+//@   ensures tailSeq - headSeq + 1 < 0 <==> result1 != nil
+//@   ensures result1 == nil ==> result0 == tailSeq - headSeq + 1
+//@   ensures result1 == nil && result0 == 0 ==> ghost(wbdels, wb) == old(ghost(wbdels, wb)) + 1 && ghost(wbputs, wb) == old(ghost(wbputs, wb))
+//@   ensures result1 == nil && result0 > 0 ==> ghost(wbputs, wb) == old(ghost(wbputs, wb)) + 1 && ghost(wbdels, wb) == old(ghost(wbdels, wb))
+//@   ensures result1 != nil ==> ghost(wbputs, wb) == old(ghost(wbputs, wb)) && ghost(wbdels, wb) == old(ghost(wbdels, wb))
+//@   modifies ghost(wbputs, wb), ghost(wbdels, wb)
